@@ -231,6 +231,8 @@ pub fn case(ctx: &Ctx, shard: usize, index: u64, rep: &mut Report) {
         }
     }
     let before = a.snapshot();
+    let ref_of = |d: &Dec| d.st.get_reference_picture().map(|p| (crate::sut::view_of(p.as_header()), p.as_yuv().0.to_vec(), p.as_yuv().1.to_vec()));
+    let ref_before = ref_of(&a);
     let ox = a.decode(&x);
     match &ox {
         Outcome::Ok => {
@@ -251,6 +253,11 @@ pub fn case(ctx: &Ctx, shard: usize, index: u64, rep: &mut Report) {
         rep.violation(format!("state-changed/{}", fault.depth()), format!("most recent picture changed across a failed call ({}) :: {}", ox.short(), describe()), coords());
         return;
     }
+    if ref_of(&a) != ref_before {
+        rep.violation(format!("reference-changed/{}", fault.depth()), format!("the reference picture changed across a failed call ({}) :: {}", ox.short(), describe()), coords());
+        return;
+    }
+    rep.count("reference_unchanged_checks");
     if !snapshot_eq(&a, &b) {
         rep.violation("twin-diverged/immediately", describe(), coords());
         return;
